@@ -13,7 +13,7 @@ EXPLANATION = ("contract checking of the real Derive/set_system_pointers/RHS/Evo
                "(nx,nrhos,nscalars): labelled bounded, not counted as proved; all other inputs (nsun in 2..6, times, state, hook values, 2^5 switches) are unrestricted")
 INC = [os.path.join(core.REPO, "include", "SQuIDS"), os.path.join(core.VERIF, "spec")]
 JOBS = {"Derive": ("SQuIDS::Derive", "C04 C10"), "set_system_pointers": ("SQuIDS::set_system_pointers", "C04 C10"), "RHS": ("squids::RHS", "C10"),
-        "Evolve": ("SQuIDS::Evolve", "C04 C10")}
+        "Evolve": ("SQuIDS::Evolve", "C04 C10"), "ini": ("SQuIDS::ini", "C10")}
 
 
 def texts(rep, nb):
@@ -43,7 +43,7 @@ def run_jobs(rep, pid, tier):
             flagsets = range(32) if n == "Derive" else ([0, 32, 96] if n == "Evolve" else [0])
             for fl in flagsets:
                 jobs.append(l1.Job("%s.nx%d.nrhos%d.nsc%d.flags%d" % (n, a, b, c, fl), ct, "h_" + n, includes=INC,
-                                   defines=["NXB=%d" % a, "NRB=%d" % b, "NSB=%d" % c, "EXACT_SIZES", "FLAGS=%d" % fl], unwind=max(a, b, c) + 2,
+                                   defines=["NXB=%d" % a, "NRB=%d" % b, "NSB=%d" % c, "EXACT_SIZES", "FLAGS=%d" % fl], unwind=(50 if n == "ini" else max(a, b, c) + 2),
                                    timeout=900, slice_formula=True, sat_solver="cadical", bound_text="nx=%d,nrhos=%d,nscalars=%d" % (a, b, c),
                                    function_label=label, where="src/SQuIDS.cpp"))
     tpl = open(os.path.join(core.VERIF, "contracts", "squids_l1.c")).read().split("\n")
